@@ -14,6 +14,7 @@ From BCL Require Import Model.Vm Proofs.VmSpecProofs.
 Open Scope N_scope.
 From BCL Require Import Model.Api Model.Compile Spec.Syntax Spec.AstSem Proofs.ParserInvProofs Proofs.T2Expr Proofs.T2Proofs Proofs.T1Expr Proofs.T1Proofs Proofs.Language.
 From BCL Require Import Proofs.VerifyFrag Proofs.CompileVerifies Proofs.Limits.
+From BCL Require Import Proofs.ParserTotal Proofs.SizeBounds.
 
 Theorem C03_setfield : forall p m i m1 name t n fs up a stk,
   read_uvarint m = Some (i, m1) -> get_const p i = Some (VStr name) ->
@@ -102,6 +103,17 @@ Theorem C03_language_within_limits : forall name src,
      res_match (fst (run_program p)) (rr_res rr) /\ obs_match (snd (run_program p)) rr).
 Proof. first [exact Limits.bcl_language_within_limits | apply Limits.bcl_language_within_limits]. Qed.
 Print Assumptions C03_language_within_limits.
+
+Theorem C03_language_within_limits_input : forall name src,
+  let pr := parse_whole name src in
+  let ts := fst (lex [src]) in
+  nlen src < 2^56 -> pr_ok pr = true ->
+  exists p, ast_program ts = Some p /\
+    (within_limits p ->
+     let rr := execute (pr_prog pr) false false in
+     res_match (fst (run_program p)) (rr_res rr) /\ obs_match (snd (run_program p)) rr).
+Proof. first [exact SizeBounds.bcl_language_within_limits_input | apply SizeBounds.bcl_language_within_limits_input]. Qed.
+Print Assumptions C03_language_within_limits_input.
 
 From BCL Require Import Model.Api.
 Example C03_example :
